@@ -117,6 +117,32 @@ pub fn shape(name: &str, d: usize) -> Option<String> {
             s2.push_str("@compute @workgroup_size(1)\nfn cs_main() { out[0] = f32(arrayLength(&big)); }\n");
             return Some(s2);
         }
+        // diamond through DISTINCT wrapper types: Level_i { l: LeftLevel_i, r: RightLevel_i }, LeftLevel_i { x: Level_{i+1} },
+        // RightLevel_i { x: Level_{i+1} }; Level_d { value: u32 } (size 4 * 2^d bytes). No struct has two members of one type,
+        // so a visited set that is only shared between the members of ONE struct does not help: 2^d paths lead to Level_d.
+        // "-array": the right wrapper holds its Level behind an array (two elements at the two outermost levels, size x 2.25)
+        "wrapper-diamond" | "wrapper-array-diamond" => {
+            let arrays = name == "wrapper-array-diamond";
+            let mut s2 = format!("struct Level{d} {{ value: u32 }}\n");
+            for i in (0..d).rev() {
+                let n = i + 1;
+                s2.push_str(&format!("struct LeftLevel{i} {{ x: Level{n} }}\n"));
+                if arrays {
+                    s2.push_str(&format!("struct RightLevel{i} {{ x: array<Level{n}, {}> }}\n", if i < 2 { 2 } else { 1 }));
+                } else {
+                    s2.push_str(&format!("struct RightLevel{i} {{ x: Level{n} }}\n"));
+                }
+                s2.push_str(&format!("struct Level{i} {{ l: LeftLevel{i}, r: RightLevel{i} }}\n"));
+            }
+            if arrays {
+                s2.push_str("@group(0) @binding(0) var<storage, read> tree: Level0;\n@group(0) @binding(1) var<storage, read_write> out: array<u32>;\n");
+                s2.push_str(&format!("@compute @workgroup_size(1)\nfn cs_main() {{ out[0] = tree{}.value; }}\n", ".l.x".repeat(d)));
+            } else {
+                s2.push_str("@group(0) @binding(0) var<storage, read_write> tree: Level0;\n");
+                s2.push_str(&format!("@compute @workgroup_size(1)\nfn cs_main() {{ tree{}.value = 1u; }}\n", ".l.x".repeat(d)));
+            }
+            return Some(s2);
+        }
         _ => return None,
     }
     Some(s)
@@ -127,7 +153,7 @@ impl Property for C20 {
         "C20"
     }
     fn rule(&self) -> &'static str {
-        "Fixed shape families at growing depth (smallest first): statement-call chains, value-returning call chains, diamonds (f_i calls f_{i-1} twice), value diamonds inside if/else/continuing, two-function ladders, wide fan-in (4*d wrappers over a shared 3-way diamond) up to depth 64 with three entry points, and nested struct diamonds / triples / array diamonds S_i { a: S_{i-1}, b: S_{i-1} } used by buffers; oracle = wall clock: create_shader_module on a helper thread must return Ok within 20 s (recv_timeout); after 2 timeouts the remaining shapes are not run."
+        "Fixed shape families at growing depth (smallest first): statement-call chains, value-returning call chains, diamonds (f_i calls f_{i-1} twice), value diamonds inside if/else/continuing, two-function ladders, wide fan-in (4*d wrappers over a shared 3-way diamond) up to depth 64 with three entry points, nested struct diamonds / triples / array diamonds S_i { a: S_{i-1}, b: S_{i-1} } and diamonds through distinct wrapper structs Level_i { l: LeftLevel_i, r: RightLevel_i } with LeftLevel_i / RightLevel_i { x: Level_{i+1} (or array<Level_{i+1}, n>) } up to depth 28, used by buffers; oracle = wall clock: create_shader_module on a helper thread must return Ok within 20 s (recv_timeout); after 2 timeouts the remaining shapes are not run."
     }
 
     fn cases(&self, _seed: u64, tier: Tier) -> Vec<Case> {
@@ -148,6 +174,11 @@ impl Property for C20 {
         }
         for &d in if tier == Tier::Quick { &[15usize, 18][..] } else { &[8usize, 12, 15, 17, 18][..] } {
             plan.push(("struct-triple", d));
+        }
+        // 4 * 2^d bytes (x 2.25 for the array variant): d <= 28
+        for &d in if tier == Tier::Quick { &[20usize, 28][..] } else { &[10usize, 16, 20, 24, 26, 28][..] } {
+            plan.push(("wrapper-diamond", d));
+            plan.push(("wrapper-array-diamond", d));
         }
         // smallest depth first so that the first reported witness is small
         plan.sort_by_key(|(_, d)| *d);
